@@ -244,11 +244,17 @@ func (g *GEM) emitterKind(call *ast.CallExpr) string {
 type env struct {
 	vals    map[types.Object][]Part // string-valued locals and local builders
 	genvars map[types.Object]bool
+	rows    map[types.Object]map[string]ast.Expr // loop variable of an unrolled constant table → its fields' expressions
 }
 
-func newEnv() *env { return &env{vals: map[types.Object][]Part{}, genvars: map[types.Object]bool{}} }
+func newEnv() *env {
+	return &env{vals: map[types.Object][]Part{}, genvars: map[types.Object]bool{}, rows: map[types.Object]map[string]ast.Expr{}}
+}
 func (e *env) clone() *env {
 	n := newEnv()
+	for k, v := range e.rows {
+		n.rows[k] = v
+	}
 	for k, v := range e.vals {
 		n.vals[k] = v
 	}
@@ -466,6 +472,25 @@ func (ev *gemEval) stmt(s ast.Stmt, e *env) []Node {
 		}
 		return append(out, Ret{Abort: abort, Pos: s.Pos()})
 	case *ast.RangeStmt:
+		// a loop over an immutable package-level table of constants (strings, or structs of constants) is unrolled: the
+		// emission is the same as if the statements were written out one after the other
+		if rows := ev.constTable(s.X); rows != nil {
+			if val, ok := s.Value.(*ast.Ident); ok && val.Name != "_" && !hasBranchStmt(s.Body) {
+				var out []Node
+				vobj := ev.info().ObjectOf(val)
+				for _, row := range rows {
+					if row.str != nil {
+						e.vals[vobj] = []Part{{Kind: PConst, Const: *row.str}}
+					} else {
+						e.rows[vobj] = row.fields
+					}
+					out = append(out, ev.block(s.Body.List, e)...)
+				}
+				delete(e.vals, vobj)
+				delete(e.rows, vobj)
+				return out
+			}
+		}
 		var out []Node
 		out = append(out, ev.exprNodes(s.X, e, nil)...)
 		out = append(out, ev.traversals(s.X)...)
@@ -584,7 +609,7 @@ func (ev *gemEval) bind(obj types.Object, rhs ast.Expr, e *env) {
 		return
 	}
 	if call, ok := ast.Unparen(rhs).(*ast.CallExpr); ok {
-		if fn := calleeOf(ev.info(), call); fn != nil && fn.Name() == "createVariableName" && fn.Pkg() != nil && fn.Pkg().Path() == pkgGenerator {
+		if fn := calleeOf(ev.info(), call); ev.g.isFreshNameFunc(fn) {
 			e.genvars[obj] = true
 			delete(e.vals, obj)
 			return
@@ -858,6 +883,13 @@ func (ev *gemEval) fold(x ast.Expr, e *env) []Part {
 		}
 		return []Part{{Kind: PData, Src: x.Name, Obj: obj}}
 	case *ast.SelectorExpr:
+		if id, ok := ast.Unparen(x.X).(*ast.Ident); ok {
+			if row, ok := e.rows[info.ObjectOf(id)]; ok {
+				if fe, ok := row[x.Sel.Name]; ok {
+					return ev.fold(fe, e)
+				}
+			}
+		}
 		if x.Sel.Name == "Value" {
 			if t := info.TypeOf(x.X); t != nil && types.Identical(t, ev.g.exprType) {
 				return []Part{{Kind: PUserExpr, Src: types.ExprString(x), Owner: types.ExprString(x.X)}}
@@ -898,7 +930,7 @@ func (g *GEM) fieldIsGenVar(f types.Object) bool {
 					}
 					isGV := false
 					if call, ok := ast.Unparen(as.Rhs[i]).(*ast.CallExpr); ok {
-						if fn := calleeOf(g.info, call); fn != nil && fn.Name() == "createVariableName" {
+						if fn := calleeOf(g.info, call); g.isFreshNameFunc(fn) {
 							isGV = true
 						}
 					}
@@ -1476,4 +1508,178 @@ func (g *GEM) describePath(path []Node) string {
 		}
 	}
 	return sb.String()
+}
+
+var freshNameFuncs map[*types.Func]bool
+
+// isFreshNameFunc recognises the generator's fresh-variable-name function by what it does, not by its name: a
+// parameterless function of the generator package with one string result whose body increments an integer field of its
+// receiver and returns an expression that mentions that same field (a constant prefix plus the counter).
+func (g *GEM) isFreshNameFunc(fn *types.Func) bool {
+	if fn == nil || fn.Pkg() == nil || fn.Pkg().Path() != pkgGenerator {
+		return false
+	}
+	if freshNameFuncs == nil {
+		freshNameFuncs = map[*types.Func]bool{}
+		for _, file := range g.pkg.Syntax {
+			for _, d := range file.Decls {
+				fd, ok := d.(*ast.FuncDecl)
+				if !ok || fd.Body == nil || fd.Recv == nil || fd.Type.Params.NumFields() != 0 || fd.Type.Results.NumFields() != 1 {
+					continue
+				}
+				if t := g.info.TypeOf(fd.Type.Results.List[0].Type); t == nil || t.String() != "string" {
+					continue
+				}
+				var counter types.Object
+				ast.Inspect(fd.Body, func(n ast.Node) bool {
+					var target ast.Expr
+					switch x := n.(type) {
+					case *ast.IncDecStmt:
+						if x.Tok == token.INC {
+							target = x.X
+						}
+					case *ast.AssignStmt:
+						if x.Tok == token.ADD_ASSIGN && len(x.Lhs) == 1 {
+							target = x.Lhs[0]
+						}
+					}
+					if se, ok := target.(*ast.SelectorExpr); ok {
+						if sel, ok := g.info.Selections[se]; ok && sel.Kind() == types.FieldVal {
+							counter = sel.Obj()
+						}
+					}
+					return true
+				})
+				if counter == nil {
+					continue
+				}
+				returnsCounter := false
+				ast.Inspect(fd.Body, func(n ast.Node) bool {
+					if r, ok := n.(*ast.ReturnStmt); ok && len(r.Results) == 1 {
+						ast.Inspect(r.Results[0], func(m ast.Node) bool {
+							if se, ok := m.(*ast.SelectorExpr); ok {
+								if sel, ok := g.info.Selections[se]; ok && sel.Obj() == counter {
+									returnsCounter = true
+								}
+							}
+							return true
+						})
+					}
+					return true
+				})
+				if returnsCounter {
+					if obj, ok := g.info.Defs[fd.Name].(*types.Func); ok {
+						freshNameFuncs[obj] = true
+					}
+				}
+			}
+		}
+	}
+	return freshNameFuncs[fn]
+}
+
+type tableRow struct {
+	str    *string
+	fields map[string]ast.Expr
+}
+
+func hasBranchStmt(b *ast.BlockStmt) bool {
+	found := false
+	ast.Inspect(b, func(n ast.Node) bool {
+		if _, ok := n.(*ast.BranchStmt); ok {
+			found = true
+		}
+		return !found
+	})
+	return found
+}
+
+// constTable: x names a package-level variable of the generator package that is initialised with a composite literal
+// of constant strings or of struct literals with constant fields, and is never assigned to (nor are its elements).
+func (ev *gemEval) constTable(x ast.Expr) []tableRow {
+	info := ev.info()
+	id, ok := ast.Unparen(x).(*ast.Ident)
+	if !ok {
+		return nil
+	}
+	v, ok := info.ObjectOf(id).(*types.Var)
+	if !ok || v.Pkg() == nil || v.Parent() != v.Pkg().Scope() {
+		return nil
+	}
+	var init ast.Expr
+	mutated := false
+	for _, f := range ev.g.pkg.Syntax {
+		ast.Inspect(f, func(n ast.Node) bool {
+			switch s := n.(type) {
+			case *ast.ValueSpec:
+				for i, nm := range s.Names {
+					if info.Defs[nm] == types.Object(v) && i < len(s.Values) {
+						init = s.Values[i]
+					}
+				}
+			case *ast.AssignStmt:
+				for _, l := range s.Lhs {
+					root := l
+					for {
+						switch r := ast.Unparen(root).(type) {
+						case *ast.IndexExpr:
+							root = r.X
+							continue
+						case *ast.SelectorExpr:
+							if _, isField := info.Selections[r]; isField {
+								root = r.X
+								continue
+							}
+						}
+						break
+					}
+					if rid, ok := ast.Unparen(root).(*ast.Ident); ok && info.ObjectOf(rid) == types.Object(v) {
+						mutated = true
+					}
+				}
+			case *ast.UnaryExpr:
+				if s.Op == token.AND {
+					if rid, ok := ast.Unparen(s.X).(*ast.Ident); ok && info.ObjectOf(rid) == types.Object(v) {
+						mutated = true
+					}
+				}
+			}
+			return true
+		})
+	}
+	cl, ok := ast.Unparen(init).(*ast.CompositeLit)
+	if !ok || mutated {
+		return nil
+	}
+	var rows []tableRow
+	for _, el := range cl.Elts {
+		if tv, ok := info.Types[el]; ok && tv.Value != nil && tv.Value.Kind() == constant.String {
+			sv := constant.StringVal(tv.Value)
+			rows = append(rows, tableRow{str: &sv})
+			continue
+		}
+		rl, ok := ast.Unparen(el).(*ast.CompositeLit)
+		if !ok {
+			return nil
+		}
+		st, ok := info.TypeOf(rl).Underlying().(*types.Struct)
+		if !ok {
+			return nil
+		}
+		row := tableRow{fields: map[string]ast.Expr{}}
+		for i, fe := range rl.Elts {
+			name, val := "", fe
+			if kv, isKV := fe.(*ast.KeyValueExpr); isKV {
+				name, val = types.ExprString(kv.Key), kv.Value
+			} else if i < st.NumFields() {
+				name = st.Field(i).Name()
+			}
+			if tv, ok := info.Types[val]; !ok || tv.Value == nil {
+				return nil
+			}
+			row.fields[name] = val
+		}
+		rows = append(rows, row)
+	}
+	return rows
 }
